@@ -38,6 +38,7 @@ from .sem import unfn
 from . import c02_sem as S
 from .c02_types import ValueTyper
 from .c02_world import World, WORLDS
+from . import c02_modal as MD
 
 UTIL = "pyyeti/ode/_utilities.py"
 I = F.I
@@ -165,6 +166,7 @@ class Run:
             types[self.ids[x]] = Arr("N", None, x)
         self.typer = ValueTyper(types, self.trace, self.label)
         self.coupled = over.get("self.unc") is False
+        self.pre_eig = bool(table.get("self.pre_eig"))
 
     def sym(self, letter):
         return F.sym(self.ids[letter])
@@ -256,7 +258,17 @@ def _result_arrays(ctx, solver, fn, trace):
         if sc is not None and sc[0] in S._NAMESPACES:
             # the solution record is built in fsolve itself (no pre_eig in the evaluated configurations): its fields are the arrays
             for x in "dva":
-                nm = S.sym_name(sc[2].get(x)) if sc[2].get(x) is not None and not is_unknown(sc[2].get(x)) and not isinstance(sc[2].get(x), tuple) else None
+                fv = sc[2].get(x) if sc[2].get(x) is not None and not is_unknown(sc[2].get(x)) and not isinstance(sc[2].get(x), tuple) else None
+                nm = S.sym_name(fv) if fv is not None else None
+                if nm is None and fv is not None:
+                    # (pre_eig: the field is the array of the path transformed back to physical coordinates, Phi @ d; the transformation is kept
+                    #  for `_force_of`)
+                    cands = sorted(n for n in _symbols(fv) if n in trace.idents)
+                    if len(cands) == 1:
+                        q = need(fv) / F.sym(cands[0])
+                        if cands[0] not in _symbols(q):
+                            nm = cands[0]
+                            trace.__dict__.setdefault("c02_transform", {})[x] = q
                 if nm is not None and nm in trace.idents:
                     ids[x] = nm
             return ids
@@ -380,6 +392,75 @@ def _usable(ctx, run):
 
 
 DYN = ("EL", "K")
+
+
+def _configs():
+    """(family, m_none, extra, tag) of the configurations the formula rules evaluate: every family with m None / given in physical coordinates, and
+    every family in the `pre_eig` regime (the solver works in modal coordinates; `_do_pre_eig` leaves m None there)"""
+    for fam in _families():
+        for m_none in (True, False):
+            yield fam, m_none, None, ""
+    for fam in _families():
+        yield fam, True, {"self.pre_eig": True}, "pre_eig"
+
+
+def _force_of(ctx, run, node=None):
+    """the right-hand side F of the equations the solver works on, in the coordinates its rows live in: the force handed to fsolve, or - under
+    pre_eig, where the returned responses are Phi q - the modal force Phi^T F (pre-multiply (-W^2 M + i W B + K) Phi q = F by Phi^T; the solver's
+    matrices are Phi^T M Phi = 1, Phi^T B Phi, Phi^T K Phi).  Phi is read from what `_solution_freq` does to d under pre_eig.  None (after an
+    analysis error) when it cannot be read."""
+    if not run.pre_eig:
+        return FORCE
+    cache = ctx.__dict__.setdefault("_c02_modal_force", {})
+    own = run.trace.__dict__.get("c02_transform")
+    if own and run.solver not in cache:
+        # the solution record is built in fsolve itself: the transformation is the one applied there
+        cache[run.solver] = None
+        try:
+            phi = MD.push_T(own["d"]) if "d" in own else None
+            if phi is not None and not phi.is_zero() and not (_symbols(phi) & run.trace.idents):
+                cache[run.solver] = MD.push_T(MD.transpose(phi) * FORCE)
+                cache[run.solver, "phi"] = _symbols(phi)
+        except Unsupported:
+            pass
+    if run.solver not in cache:
+        cache[run.solver] = None
+        sf = None
+        for rel, cls in _classes(run.solver):
+            sf = sf or ctx.src.mod(rel).funcs.get(f"{cls}._solution_freq")
+        try:
+            plain = _solution_fields(ctx, sf, False, _classes(run.solver)) if sf is not None else None
+            modal = _solution_fields(ctx, sf, True, _classes(run.solver)) if sf is not None else None
+            pn = S.sym_name(plain.get("d")) if plain else None
+            dv = modal.get("d") if modal else None
+            if pn is not None and dv is not None and not is_unknown(dv) and not isinstance(dv, tuple):
+                phi = MD.push_T(need(dv) / F.sym(pn))
+                if pn not in _symbols(phi) and not phi.is_zero():
+                    cache[run.solver] = MD.push_T(MD.transpose(phi) * FORCE)
+                    cache[run.solver, "phi"] = _symbols(phi)
+        except Unsupported:
+            pass
+    if cache[run.solver] is None:
+        ctx.error(f"{run.label}: the transformation `_solution_freq` applies to the modal responses under pre_eig cannot be read (the modal force is its "
+                  "transpose times the force)", node or run.fn)
+    return cache[run.solver]
+
+
+def _refutable_modal(ctx, run, ok, text, node, *values):
+    """under pre_eig a right-hand side written through a solve with the transformation (Phi^-1 ... instead of Phi^T ...) may be the modal force
+    in another spelling (Phi^T M Phi = 1): not refuted by the comparison with Phi^T F - an analysis error"""
+    if ok or not run.pre_eig:
+        return True
+    for v in values:
+        if v is None or is_unknown(v) or isinstance(v, tuple):
+            continue
+        for name in ("solve", "lu_solve", "call:la.inv", "call:np.linalg.inv", "call:la.pinv", "call:np.linalg.pinv", "call:la.lstsq", "call:np.linalg.lstsq"):
+            for args in S.atoms_of(v, name):
+                if args and not isinstance(args[0], str) and (_symbols(args[0]) & ctx.__dict__.get("_c02_modal_force", {}).get((run.solver, "phi"), {"self.phi"})):
+                    ctx.error(f"{text}: the right-hand side is written through a solve with the modal transformation, which the rule cannot compare with "
+                              "Phi^T F", node, repr(v))
+                    return False
+    return True
 
 
 def _check_once(ctx, ok, text, node, detail=None, key=None, tag=None):
@@ -510,10 +591,13 @@ def _eq(a, b):
 # ------------------------------------------------------------------------------------------------ R1
 def r1_dynamic_stiffness(ctx):
     b, k, m = F.sym("self.b"), F.sym("self.k"), F.sym("self.m")
-    for fam in _families():
-        for m_none in (True, False):
-            run = _run(ctx, fam[0], m_none)
+    for fam, m_none, extra, tag in _configs():
+        if True:
+            run = _run(ctx, fam[0], m_none, extra, tag)
             if not _usable(ctx, run):
+                continue
+            FORCE = _force_of(ctx, run)
+            if FORCE is None:
                 continue
             cs = run.cells("d", DYN)
             if not cs:
@@ -548,6 +632,10 @@ def r1_dynamic_stiffness(ctx):
                 ctx.check(not fixed, f"{run.label}: the displacement at each frequency is computed from that frequency and that column of the force (no fixed "
                                      "entry of a frequency vector, no fixed column of the force)", node, None if not fixed else fixed)
                 V = S.erase_idx(val)
+                if run.pre_eig:
+                    V = MD.push_T(V)
+                    if not _refutable_modal(ctx, run, False, f"{run.label}: dynamic stiffness", node, V):
+                        continue
                 mm = F.const(1) if m_none else m
                 H = I * W * b + k - W * W * mm
                 if run.family == "su-coup":
@@ -731,9 +819,9 @@ def _freq_mask(ctx, run, M, node, which):
 
 
 def r2_derivative_relations(ctx):
-    for fam in _families():
-        for m_none in (True, False):
-            run = _run(ctx, fam[0], m_none)
+    for fam, m_none, extra, tag in _configs():
+        if True:
+            run = _run(ctx, fam[0], m_none, extra, tag)
             if not _usable(ctx, run):
                 continue
             tr = run.trace
@@ -1094,7 +1182,13 @@ def _psd_opts(psd_id=None, pp=None):
         if len(node.args) > 1 and not node.keywords:
             return tuple(ev.ev(a) for a in node.args)
         return NotImplemented
-    return S.Opts(models={"np.atleast_2d": atleast, "np.atleast_1d": atleast}, elem_hook=elem, load_hook=load)
+    models = {"np.atleast_2d": atleast, "np.atleast_1d": atleast}
+    if pp is not None:
+        # the area run on the finite grid: vectors built from the grid are held entry by entry (hand-written quadrature weights are values)
+        models.update(MD.vector_models())
+    opts = S.Opts(models=models, elem_hook=elem, load_hook=load, vectors=pp is not None)
+    opts.vector_readers = {"fsolve"}          # (the solvers do not write the force / frequency arrays they are handed)
+    return opts
 
 
 def _psd_run(ctx, fn, present, env=None, opts=None):
@@ -1342,6 +1436,17 @@ def r5_solvepsd(ctx):
     try:
         ok = (val * val).equals(want)
         detail = None if ok else {"rms^2": repr(val * val), "trapezoid": repr(want)}
+        if not ok:
+            # a quadrature written by hand is a weight per grid point: the weights it uses next to those of the trapezoid rule
+            # (w_0 = d_0/2, w_i = (d_(i-1) + d_i)/2, w_last = d_last/2 with d = diff(freq))
+            try:
+                ws = [(val * val).diff(f"p{i}") for i in range(NF)]
+                if not any(_symbols(w) & {f"p{i}" for i in range(NF)} for w in ws):
+                    tw = MD.trapezoid_weights(NF)
+                    detail = {"weights of p0..p3": [repr(w) for w in ws], "trapezoid weights": [repr(w) for w in tw],
+                              "differ at": [f"p{i}" for i in range(NF) if not _eq(ws[i], tw[i])]}
+            except Unsupported:
+                pass
     except Unsupported as e:
         ok, detail = False, str(e)
     if not ok and _psd_foreign(fn, t3, val):
@@ -1796,7 +1901,12 @@ def _state_meaning(ctx, solver, attr, table):
 def _limit_identity(ctx, run, V, K, table, text, node, detail_name):
     """one obligation: the stored value V (subscripts erased) solves K x = F, where K is the named partition of a system matrix (or 1) and the
     solver state V is written with (an inverse, an LU factorisation) is read from the code that computes it"""
-    keep = {"self.krf", "self.m"}
+    keep = {"self.krf", "self.m"} | (ctx.__dict__.get("_c02_modal_force", {}).get((run.solver, "phi"), set()) if run.pre_eig else set())
+    FORCE = _force_of(ctx, run, node)
+    if run.pre_eig:
+        V = MD.push_T(V)
+        if not _refutable_modal(ctx, run, False, text, node, V):
+            return
     state = sorted(n for n in _symbols(V) if n.startswith("self.") and n not in keep)
     meaning = {}
     for n in state:
@@ -1836,7 +1946,7 @@ def _limit_identity(ctx, run, V, K, table, text, node, detail_name):
         seen.append(um[1][0] if um is not None and um[0] in _LU_FACTOR and um[1] and not isinstance(um[1][0], str) else v)
     if not _refutable(ctx, run, ok, text, node, *seen):
         return
-    _check_once(ctx, ok, text, node, None if ok else dict(got, want=f"K x = F with K = {K!r}"), tag=("limit", detail_name))
+    _check_once(ctx, ok, text, node, None if ok else dict(got, want=f"K x = F with K = {K!r}" + (f", F = {FORCE!r} (the force in the modal coordinates the rows live in)" if run.pre_eig else "")), tag=("limit", detail_name))
 
 
 def r10_static_and_rigid_limits(ctx):
@@ -1845,10 +1955,12 @@ def r10_static_and_rigid_limits(ctx):
     inverse, an LU factorisation); what that state holds is read from the method that assigns it, so the obligation is on the product
     state x use: whatever is stored on the rf rows of d, multiplied by k_rf, is F - and likewise for the rigid-body acceleration and m."""
     krf, mm = F.sym("self.krf"), F.sym("self.m")
-    for fam in _families():
-        for m_none in (True, False):
-            run = _run(ctx, fam[0], m_none)
+    for fam, m_none, extra, tag in _configs():
+        if True:
+            run = _run(ctx, fam[0], m_none, extra, tag)
             if not _usable(ctx, run):
+                continue
+            if _force_of(ctx, run) is None:
                 continue
             table = {"self.unc": not run.coupled, "self.rfsize": True, "self.ksize": True, "self.rbsize": True, "self.m is None": m_none,
                      "self.m is not None": not m_none, "np.size(self._rb)": True, "self._rb.size": True, "len(self._rb)": True}
@@ -1903,14 +2015,16 @@ MANIFEST = {
             "(uncoupled and coupled, m None/given) is F over / solved with i W b + k - W^2 m with W = 2 pi f, and the modal path uses i W - lambda with the d-rows / "
             "v-columns of the eigenvectors; (R2) v = i W d, a = -W^2 d on every rf / dynamic partition from the displacement stored on the same rows, rigid-body "
             "v = a/(iW), d = -a/W^2 filled exactly where W != 0 (decided per class of frequencies W > 0, W < 0, W = 0); (R3) incrb / rf_disp_only honoured, decided by evaluating each option setting; "
-            "(R4) partition-space typing of every value stored on the frequency-domain paths in both SolveUnc modes; (R5) solvepsd formula, None entries and trapezoid; "
+            "(R4) partition-space typing of every value stored on the frequency-domain paths in both SolveUnc modes; (R5) solvepsd formula, None entries and trapezoid "
+            "(the area is evaluated on a generic non-uniform 4-point grid with vectors held entry by entry, so a quadrature written by hand is compared weight by weight); "
             "(R6) paired advanced indices; (R7) every force reaches the PSD accumulation (must-pass-through in the "
             "force loop: only a vanishing force PSD may skip an iteration, because the direct term drmf[:, i] bypasses the equations); (R8) a structure "
             "assumption handed to the solver of the dynamic stiffness must be derived from every matrix of H; (R9) the conditions under which addconj / delconj are applied (in SolveUnc._addconj / "
             "_delconj or wherever those calls live) are complementary, also on the whole path from fsolve to the call (the full conjugate set is "
             "restored before every frequency solve unless it is already full); (R10) the two limits of the dynamic stiffness that are solved apart: "
             "what is stored on the rf rows of d times k_rf is F, the rigid-body acceleration times m_rb is F (the inverse / LU state the code uses is read "
-            "from the methods that assign it). "
+            "from the methods that assign it). R1, R2 and R10 are also evaluated in the pre_eig regime, where F is the force in the modal coordinates the rows "
+            "live in, Phi^T F with Phi the transformation _solution_freq applies to the responses. "
             "Not decided: accuracy of the complex-mode path, singular H, library solves.",
     "note": "Trusted: CPython ast; verifier/e2_formula.py (commutative normal forms: matrix products are abstracted to scalar products), verifier/c02_sem.py "
             "(path evaluator), verifier/c02_types.py with the attribute table of verifier/ode_spaces.py (read from _BaseODE, one reason per line).",
